@@ -596,7 +596,8 @@ func (c *Client) GC(safePoint uint64) string {
 // LockAt = LockKeys with a for-update ts chosen by the scenario instead of a fresh one (TiDB takes the for-update ts of a
 // statement once and re-uses it for every lock call of the statement; a retried statement may or may not refresh it):
 // sel = "fresh" (a new timestamp, as Lock) | "start" (the start ts) | "last" (the for-update ts of the previous LockAt call,
-// start ts if none) | "conflict" (the largest locked-with-conflict ts reported so far, start ts if none).
+// start ts if none) | "conflict" (the largest locked-with-conflict ts reported so far, start ts if none); never below the
+// for-update ts of the previous LockAt call.
 // The trace line is `lock <keys> <flags> fu=<sel>:<ts>`; results as Lock.
 func (c *Client) LockAt(keys [][]byte, flags string, sel string) string {
 	c.track(keys...)
@@ -617,6 +618,10 @@ func (c *Client) LockAt(keys [][]byte, flags string, sel string) string {
 		if st.maxConflict != 0 {
 			fu = st.maxConflict
 		}
+	}
+	if fu < st.lastFU {
+		// a for-update ts never moves backwards (the caller takes it from the oracle or keeps the one it has)
+		fu = st.lastFU
 	}
 	n := c.callBegin("lock", HexList(keys), flags, "fu="+sel+":"+u(fu))
 	st.lastFU = fu
